@@ -5,6 +5,7 @@
 //! context; (d) all strings up to 3 characters over a Unicode edge alphabet, in 4 contexts; (e) the named rejection cases;
 //! (f) bracket nesting up to the documented bound 64 on a 2 MiB stack; (g) long flat texts in child processes.
 
+use std::sync::Mutex;
 use serde_json::{json, Value as J};
 
 use crate::checks::fail;
@@ -63,7 +64,7 @@ const VOCAB: [&str; 40] = [
 ];
 const VOCAB2: [&str; 12] = ["*", "'s'", ".", "1.5", "<", ">", "!", "count", "TRUE", "DEFAULT", ":", "+"];
 
-const UNI: [&str; 13] = ["é", "٣", "²", "İ", "\u{2028}", "'", "\\", "\n", "-", "=", ":", "😀", "\0"];
+const UNI: [&str; 15] = ["K", "ß", "é", "٣", "²", "İ", "\u{2028}", "'", "\\", "\n", "-", "=", ":", "😀", "\0"];
 
 fn named_cases() -> Vec<&'static str> {
     vec![
@@ -216,6 +217,68 @@ pub fn child(args: &[String]) -> i32 {
     std::thread::Builder::new().stack_size(stack).spawn(run).unwrap().join().unwrap_or(4)
 }
 
+/// child: vcheck --child parsebatch <file with one hex-encoded text per line>: parses every text (and produces the error
+/// excerpt like the command line program does), announcing each one before it starts, so that the parent knows which
+/// text ended the process if it dies (stack overflow, abort)
+pub fn child_batch(args: &[String]) -> i32 {
+    let content = std::fs::read_to_string(&args[1]).unwrap_or_default();
+    let texts: Vec<String> = content.lines().map(|l| String::from_utf8_lossy(&unhex(l)).to_string()).collect();
+    let run = move || {
+        use std::io::Write;
+        let out = std::io::stdout();
+        for (i, t) in texts.iter().enumerate() {
+            {
+                let mut o = out.lock();
+                let _ = writeln!(o, "B {}", i);
+                let _ = o.flush();
+            }
+            let _ = catch(|| match sqlgrep::parsing::parse(t) {
+                Ok(_) => 0,
+                Err(e) => e.location().clone().extract_near(t).len(),
+            });
+        }
+        let mut o = out.lock();
+        let _ = writeln!(o, "DONE");
+        0
+    };
+    std::thread::Builder::new().stack_size(8 << 20).spawn(run).unwrap().join().unwrap_or(4)
+}
+
+/// texts on which the parser ends the whole process (not a panic: a stack overflow / abort); found by parsing all of them
+/// in child processes first. Returns the indexes of such texts.
+fn process_killers(texts: &[&str]) -> Vec<usize> {
+    let mut killers = Vec::new();
+    let mut start = 0usize;
+    let exe = std::env::current_exe().unwrap();
+    static CNT: std::sync::atomic::AtomicU64 = std::sync::atomic::AtomicU64::new(0);
+    while start < texts.len() {
+        let path = format!("{}/c14_batch_{}_{}.txt", crate::sut::tmp_dir(), std::process::id(), CNT.fetch_add(1, std::sync::atomic::Ordering::Relaxed));
+        let body: String = texts[start..].iter().map(|t| format!("{}\n", hex(t.as_bytes()))).collect();
+        if std::fs::write(&path, body).is_err() {
+            break;
+        }
+        let out = std::process::Command::new(&exe).args(["--child", "parsebatch", &path]).stderr(std::process::Stdio::null()).output();
+        std::fs::remove_file(&path).ok();
+        let out = match out {
+            Ok(o) => o,
+            Err(_) => break,
+        };
+        let stdout = String::from_utf8_lossy(&out.stdout);
+        if stdout.lines().last() == Some("DONE") {
+            break;
+        }
+        // the last announced text ended the child
+        match stdout.lines().rev().find_map(|l| l.strip_prefix("B ").and_then(|x| x.parse::<usize>().ok())) {
+            Some(i) => {
+                killers.push(start + i);
+                start += i + 1;
+            }
+            None => break,
+        }
+    }
+    killers
+}
+
 fn run_child(mode: &str, kind: usize, n: usize) -> (String, Option<i32>, String) {
     let exe = std::env::current_exe().unwrap();
     let mut child = std::process::Command::new(exe).args(["--child", "parse", mode, &kind.to_string(), &n.to_string()]).stdout(std::process::Stdio::piped()).stderr(std::process::Stdio::piped()).spawn().expect("spawn child");
@@ -361,13 +424,40 @@ pub fn run(ctx: &Ctx) -> i32 {
     col.sample(json!({"layer": "token-soup", "text": "SELECT x FROM t WHERE ( NOT ="}));
     // (d) unicode edge strings
     let uk = UNI.len() as u64;
-    let ucontexts: [(&str, &str); 5] = [("", ""), ("SELECT ", " FROM t"), ("SELECT '", "' FROM t"), ("SELECT x FROM t WHERE x = ", ""), ("CREATE TABLE t(line = '", "', line[1] => x INT);")];
+    let ucontexts: [(&str, &str); 7] = [("CREATE TABLE t('(a)' => x ", "[]);"), ("CREATE TABLE t('(a)' => x ", ");"), ("", ""), ("SELECT ", " FROM t"), ("SELECT '", "' FROM t"), ("SELECT x FROM t WHERE x = ", ""), ("CREATE TABLE t(line = '", "', line[1] => x INT);")];
     let utotal = seq_count(uk, 3);
-    par_for(utotal, |idx| {
-        let seq = seq_decode(idx, uk, 3);
-        let body: String = seq.iter().map(|i| UNI[*i as usize]).collect();
-        for (a, b) in ucontexts {
-            record(&col, &format!("{}{}{}", a, body, b), "unicode", seq.len() as u64, true);
+    // every text is first parsed in a child process (16 batches): a text that ends the process is a violation and is kept
+    // out of the in-process pass
+    let utexts: Vec<String> = (0..utotal)
+        .flat_map(|idx| {
+            let seq = seq_decode(idx, uk, 3);
+            let body: String = seq.iter().map(|i| UNI[*i as usize]).collect();
+            ucontexts.iter().map(|(a, b)| format!("{}{}{}", a, body, b)).collect::<Vec<_>>()
+        })
+        .collect();
+    let chunk = (utexts.len() + 15) / 16;
+    let dead: Mutex<std::collections::HashSet<usize>> = Mutex::new(std::collections::HashSet::new());
+    par_for(16, |c| {
+        let lo = (c as usize * chunk).min(utexts.len());
+        let hi = (lo + chunk).min(utexts.len());
+        let refs: Vec<&str> = utexts[lo..hi].iter().map(|s| s.as_str()).collect();
+        for k in process_killers(&refs) {
+            dead.lock().unwrap().insert(lo + k);
+            let t = &utexts[lo + k];
+            col.fail(fail(
+                "parse-child:process-ended:unicode".into(),
+                format!("parsing {:?} ends the whole process (stack overflow / abort) instead of returning a statement or an error", t),
+                json!({"layer": "unicode-child", "text": t}),
+                json!("statement or error"),
+                json!("process ended"),
+                t.len() as u64,
+            ));
+        }
+    });
+    let dead = dead.into_inner().unwrap();
+    par_for(utexts.len() as u64, |i| {
+        if !dead.contains(&(i as usize)) {
+            record(&col, &utexts[i as usize], "unicode", 3, true);
         }
     });
     col.layer("d-unicode", utotal * ucontexts.len() as u64, true, json!({"alphabet": UNI.iter().map(|s| s.escape_unicode().to_string()).collect::<Vec<_>>()}));
@@ -452,7 +542,7 @@ pub fn run(ctx: &Ctx) -> i32 {
         &col,
         Finish {
             level: "exploration",
-            rule: "every prefix and every single-token mutant of a 45-statement corpus, all token sequences up to the bound over the vocabulary in 5 contexts, all strings up to 3 characters over a Unicode edge alphabet in 5 contexts, named rejection cases, nesting to depth 64 (2 MiB stack) and long flat texts (child processes); oracle: statement or error whose location lies inside the text and whose excerpt can be produced. Non-trivial: an error located before the end of the text, or Ok for a mutated text.".into(),
+            rule: "every prefix and every single-token mutant of a 45-statement corpus, all token sequences up to the bound over the vocabulary in 5 contexts, all strings up to 3 characters over a Unicode edge alphabet in 7 contexts (incl. the type position of a column, plain and array), named rejection cases, nesting to depth 64 (2 MiB stack) and long flat texts (child processes); oracle: statement or error whose location lies inside the text and whose excerpt can be produced. Non-trivial: an error located before the end of the text, or Ok for a mutated text.".into(),
             exhaustive: true,
             assumptions: vec!["documented bracket-nesting bound taken as 64 (sqlgrep documents none)".into(), "harness profile has overflow checks and debug assertions on".into()],
             bounds: json!({"soup_len": maxlen, "unicode_len": 3, "nesting": 64, "flat_sizes": sizes}),
@@ -468,6 +558,10 @@ pub fn replay(case: &J) -> Vec<Failure> {
             Ok(_) => vec![],
             Err(p) => vec![fail(panic_signature(&p), p.msg.clone(), case.clone(), json!("error"), json!(p.msg), 0)],
         };
+    }
+    if case["layer"].as_str() == Some("unicode-child") {
+        let t = case["text"].as_str().unwrap_or("");
+        return if process_killers(&[t]).is_empty() { vec![] } else { vec![fail("parse-child:process-ended:unicode".into(), format!("parsing {:?} ends the process", t), case.clone(), json!("statement or error"), json!("process ended"), 0)] };
     }
     if case["layer"].as_str() == Some("number-boundary") {
         let t = case["text"].as_str().unwrap_or("");
